@@ -81,18 +81,25 @@ def collect (cfg : Cfg) (valid : Bytes → Bool) (t n : Nat) : List Bytes → Li
       let acc' := acc ++ [shareIdx s]
       if acc'.length ≥ t then .ok acc' else collect cfg valid t n r acc'
 
-/-- `RecoverCommit`: indices ≥ n are skipped; fewer than `t` left is an error; two shares with the
-same index make a Lagrange denominator zero (`Div` by zero: nil dereference inside `mod.Int`) -/
-def recoverCommit (t n : Nat) (idxs : List Nat) : Out :=
+/-- first occurrences, in order -/
+def uniqNat : List Nat → List Nat → List Nat
+  | [], _ => []
+  | x :: r, seen => if x ∈ seen then uniqNat r seen else x :: uniqNat r (x :: seen)
+
+/-- `RecoverCommit`: indices ≥ n are skipped and (2d8b40a, flag `rcDedup`) so is a share whose index was
+collected already; fewer than `t` left is an error. Without the de-duplication two shares with the same
+index make a Lagrange denominator zero (`Div` by zero: nil dereference inside `mod.Int`) -/
+def recoverCommit (cfg : Cfg) (t n : Nat) (idxs : List Nat) : Out :=
   let used := idxs.filter (· < n)
-  if used.length < t then .err "few"
+  if cfg.rcDedup then (if (uniqNat used []).length < t then .err "few" else .ok "")
+  else if used.length < t then .err "few"
   else if !decide used.Nodup then .panic "share.RecoverCommit|callpanics|num.Div(num, den)"
   else .ok ""
 
 def tblsRecover (cfg : Cfg) (valid : Bytes → Bool) (t n : Nat) (sigs : List Bytes) : Out :=
   match collect cfg valid t n (uniq sigs []) [] with
   | .error o => o
-  | .ok idxs => recoverCommit t n idxs
+  | .ok idxs => recoverCommit cfg t n idxs
 
 structure RsSt where
   shares : List Bytes := []
